@@ -91,13 +91,14 @@ pub fn drive(args: &[String]) -> i32 {
             // Cheng BB / BC (Beta<f64>): first uniform word j 2^60 (u1 = j/16 + 2^-53), accepting second words are a prefix
             let a: f64 = c["a"].as_str().unwrap().parse().unwrap(); let b: f64 = c["b"].as_str().unwrap().parse().unwrap();
             let js: Vec<u64> = c["js"].as_array().unwrap().iter().map(|x| x.as_u64().unwrap()).collect();
+            let sh = c.get("sh").and_then(|x| x.as_u64()).unwrap_or(60);
             let res = guarded(|| -> Vec<Value> {
                 let d = Beta::<f64>::new(a, b).expect("constructor");
                 let mut r = ScriptRng::new(vec![0, 0], 0);
                 let mut call = |w1: u64, w2: u64| -> (f64, u64) { r.prefix[0] = w1; r.prefix[1] = w2; r.pos = 0; r.state = 29 ^ w2; r.n32 = 0; r.n64 = 0; r.nbytes = 0; let o = d.sample(&mut r); (o, r.words()) };
                 let mut evs = vec![];
                 for (i, &j) in js.iter().enumerate() {
-                    let w1 = j << 60;
+                    let w1 = j << sh;
                     let (o0, n0) = call(w1, 0);
                     let t = first_true(0, ALL, |w| call(w1, w as u64).1 != 2);
                     evs.push(json!({"op": "cheng", "case": id, "i": i + 1, "accepted_at_zero": n0 == 2, "xq": l14((o0 * 1152921504606846976.0).floor().max(0.0) as u128), "T": l14(t),
